@@ -2,7 +2,7 @@
    Everything here is about the model with an ARBITRARY threshold record K; the property theorems
    (theories/Props/C12_explog.v) instantiate K with the thresholds regenerated from the source. *)
 From Coq Require Import Reals ZArith Lra Lia.
-From SM Require Import Base.Ops Base.Lin Base.RInst Model.C12_ExpLog.
+From SM Require Import Base.Ops Base.Lin Base.RInst Model.C05_Trig Model.C12_ExpLog.
 Open Scope R_scope.
 
 Definition nv3 (x y z : R) : R := sqrt (x*x + y*y + z*z).
@@ -42,25 +42,53 @@ Proof.
   - apply Rmult_lt_reg_r with N; [exact HNpos|]. unfold Rdiv. rewrite Rmult_assoc, Rinv_l by lra. lra.
 Qed.
 
-(* the angle acos(s/|q|) has sine |v|/|q| and is positive *)
-Lemma sin_acos_ratio s x y z : 0 < nv3 x y z ->
-  sin (acos (s / nq4 s x y z)) = nv3 x y z / nq4 s x y z.
+(* the angle atan2(|v|, s) of a quaternion with non-zero vector part: in (0, pi), cosine s/|q|, sine |v|/|q| *)
+Lemma nq4_as_hyp s x y z : sqrt (s*s + nv3 x y z * nv3 x y z) = nq4 s x y z.
+Proof. apply sqrt_lem_1; [pose proof (nv3_nonneg x y z); nra | apply nq4_nonneg | apply nq4_sq]. Qed.
+
+Lemma atan2_pos_lt y x : 0 < y -> 0 < atan2 y x < PI.
 Proof.
-  intros Hn. destruct (nq4_gt_s s x y z Hn) as [HN Hc].
-  pose proof (nq4_sq s x y z) as Hsq.
-  rewrite sin_acos by lra.
-  apply sqrt_lem_1.
-  - unfold Rsqr. assert (Hc2 : (s / nq4 s x y z) * (s / nq4 s x y z) < 1) by nra. lra.
-  - apply Rlt_le, Rdiv_lt_0_compat; assumption.
-  - unfold Rsqr. field_simplify_eq; [|lra]. nra.
+  intros Hy. assert (H : 0 < x*x + y*y) by nra.
+  pose proof (sin_atan2 y x H) as Hs. pose proof (atan2_range y x) as [Hlo Hhi].
+  assert (Hp : 0 < sin (atan2 y x)).
+  { rewrite Hs. apply Rdiv_lt_0_compat; [exact Hy | apply sqrt_lt_R0; exact H]. }
+  split.
+  - destruct (Rlt_dec 0 (atan2 y x)) as [|Hn]; [assumption|exfalso].
+    assert (Hge : 0 <= sin (- atan2 y x)) by (apply sin_ge_0; lra).
+    rewrite sin_neg in Hge. lra.
+  - destruct Hhi as [Hlt|Heq]; [exact Hlt | rewrite Heq, sin_PI in Hp; lra].
 Qed.
 
-Lemma acos_pos_lt c : -1 < c < 1 -> 0 < acos c < PI.
-Proof. apply acos_bound_lt. Qed.
+Lemma angle_facts s x y z : 0 < nv3 x y z ->
+  let th := atan2 (nv3 x y z) s in
+  0 < th < PI /\ cos th = s / nq4 s x y z /\ sin th = nv3 x y z / nq4 s x y z.
+Proof.
+  intros Hn th. unfold th.
+  assert (H : 0 < s*s + nv3 x y z * nv3 x y z) by nra.
+  repeat split; try (apply atan2_pos_lt; exact Hn).
+  - rewrite cos_atan2 by exact H. rewrite nq4_as_hyp. reflexivity.
+  - rewrite sin_atan2 by exact H. rewrite nq4_as_hyp. reflexivity.
+Qed.
+
+(* atan2 recovers an angle of (0, pi) from a positive multiple of (sin, cos) *)
+Lemma atan2_scaled k n : 0 < k -> 0 < n < PI -> atan2 (k * sin n) (k * cos n) = n.
+Proof.
+  intros Hk Hn. assert (Hs : 0 < sin n) by (apply sin_gt_0; lra).
+  assert (Hy : 0 < k * sin n) by nra.
+  destruct (atan2_pos_lt (k * sin n) (k * cos n) Hy) as [H0 Hpi].
+  pose proof (sin2_cos2 n) as Hsc. unfold Rsqr in Hsc.
+  assert (Hh : 0 < k * cos n * (k * cos n) + k * sin n * (k * sin n)) by nra.
+  assert (Hq : sqrt (k * cos n * (k * cos n) + k * sin n * (k * sin n)) = k).
+  { apply sqrt_lem_1; [nra | lra | ]. transitivity (k * k * (sin n * sin n + cos n * cos n)); [rewrite Hsc; ring | ring]. }
+  pose proof (cos_atan2 (k * sin n) (k * cos n) Hh) as Hc. rewrite Hq in Hc.
+  replace (k * cos n / k) with (cos n) in Hc by (field; lra).
+  rewrite <- (acos_cos (atan2 (k * sin n) (k * cos n))) by lra.
+  rewrite Hc. apply acos_cos. lra.
+Qed.
 
 (* norm of a non-negative multiple of the unit vector v/|v| *)
 Lemma nv3_scaled th x y z : 0 <= th -> 0 < nv3 x y z ->
-  nv3 (th * (x / nv3 x y z)) (th * (y / nv3 x y z)) (th * (z / nv3 x y z)) = th.
+  nv3 (th * x / nv3 x y z) (th * y / nv3 x y z) (th * z / nv3 x y z) = th.
 Proof.
   intros Ht Hn. pose proof (nv3_sq x y z) as Hsq. set (n := nv3 x y z) in *.
   unfold nv3 at 1. apply sqrt_lem_1; [nra | exact Ht |].
@@ -110,37 +138,43 @@ Proof.
 Qed.
 
 (* ------------------------------------------------------------------ the model, evaluated over R *)
+Lemma Reqb_false_of x : x <> 0 -> Reqb x 0 = false.
+Proof. intros H. unfold Reqb. destruct (Req_EM_T x 0); [contradiction | reflexivity]. Qed.
+Lemma Reqb_refl0 : Reqb 0 0 = true.
+Proof. apply Reqb_true. reflexivity. Qed.
+
 Section WithK.
 Context (K : qthr R).
 
-Lemma qlog_R_ok s x y z : 0 <= t_unitvec K -> t_unitvec K < nv3 x y z ->
-  qlog Rops K (s,x,y,z) =
-    let n := nv3 x y z in let N := nq4 s x y z in let th := acos (s / N) in
-    Ok (ln N, th * (x / n), th * (y / n), th * (z / n)).
+Lemma qlog_R s x y z : 0 < nv3 x y z ->
+  qlog Rops (s,x,y,z) =
+    let n := nv3 x y z in let th := atan2 n s in
+    Ok (ln (nq4 s x y z), th * x / n, th * y / n, th * z / n).
 Proof.
-  intros Hk Hn. assert (Hn0 : 0 < nv3 x y z) by lra.
-  destruct (nq4_gt_s s x y z Hn0) as [HN Hc].
-  unfold qlog, unitvec3. rewrite qnorm4_R, vnorm3_R. sm_simpl.
+  intros Hn. destruct (nq4_gt_s s x y z Hn) as [HN _].
+  unfold qlog. rewrite qnorm4_R, vnorm3_R. sm_simpl.
   replace (Rleb (nq4 s x y z) 0) with false by (symmetry; apply Rleb_false; lra).
-  replace (Rltb 1 (Rabs (s / nq4 s x y z))) with false
-    by (symmetry; apply Rltb_false; intro H; unfold Rabs in H; destruct (Rcase_abs _) in H; lra).
-  replace (Rltb (t_unitvec K) (nv3 x y z)) with true by (symmetry; apply Rltb_true; exact Hn).
-  reflexivity.
+  rewrite Reqb_false_of by lra. reflexivity.
 Qed.
 
-Lemma qlog_R_none s x y z : nv3 x y z <= t_unitvec K -> 0 < nq4 s x y z ->
-  qlog Rops K (s,x,y,z) = TypeErr.
+(* real quaternions *)
+Lemma nq4_real s : nq4 s 0 0 0 = Rabs s.
+Proof. unfold nq4. replace (s*s + 0*0 + 0*0 + 0*0) with (s*s) by ring. apply sqrt_lem_1; [nra | apply Rabs_pos |].
+  unfold Rabs; destruct (Rcase_abs s); ring. Qed.
+
+Lemma qlog_R_real_pos s : 0 < s -> qlog Rops (s,0,0,0) = Ok (ln s, 0, 0, 0).
 Proof.
-  intros Hn HN. unfold qlog, unitvec3. rewrite qnorm4_R, vnorm3_R. sm_simpl.
-  replace (Rleb (nq4 s x y z) 0) with false by (symmetry; apply Rleb_false; lra).
-  assert (Hc : Rabs (s / nq4 s x y z) <= 1).
-  { pose proof (nq4_sq s x y z) as Hsq. pose proof (nv3_nonneg x y z).
-    unfold Rdiv. rewrite Rabs_mult, (Rabs_right (/ _)) by (apply Rle_ge, Rlt_le, Rinv_0_lt_compat; exact HN).
-    apply Rmult_le_reg_r with (nq4 s x y z); [exact HN|]. rewrite Rmult_assoc, Rinv_l by lra.
-    unfold Rabs; destruct (Rcase_abs s); nra. }
-  replace (Rltb 1 (Rabs (s / nq4 s x y z))) with false by (symmetry; apply Rltb_false; lra).
-  replace (Rltb (t_unitvec K) (nv3 x y z)) with false by (symmetry; apply Rltb_false; lra).
-  reflexivity.
+  intros Hs. unfold qlog. rewrite qnorm4_R, vnorm3_R, nv3_zero, nq4_real, Rabs_right by lra. sm_simpl.
+  replace (Rleb s 0) with false by (symmetry; apply Rleb_false; lra).
+  rewrite Reqb_refl0. replace (Rltb s 0) with false by (symmetry; apply Rltb_false; lra). reflexivity.
+Qed.
+
+Lemma qlog_R_real_neg s : s <= 0 -> qlog Rops (s,0,0,0) = ValueErr.
+Proof.
+  intros Hs. unfold qlog. rewrite qnorm4_R, vnorm3_R, nv3_zero, nq4_real. sm_simpl.
+  destruct (Rleb (Rabs s) 0) eqn:E; [reflexivity|]. apply Rleb_false in E.
+  rewrite Reqb_refl0. replace (Rltb s 0) with true; [reflexivity|]. symmetry; apply Rltb_true.
+  destruct Hs as [Hs|Hs]; [exact Hs | subst s; rewrite Rabs_R0 in E; lra].
 Qed.
 
 Lemma qexp_R s x y z : 0 < nv3 x y z ->
@@ -149,15 +183,16 @@ Lemma qexp_R s x y z : 0 < nv3 x y z ->
     let r := (exp s * cos n, exp s * x / n * sin n, exp s * y / n * sin n, exp s * z / n * sin n) in
     if Rltb (Rabs s) (t_exp K) then qbind (qunit Rops K r) (fun u => Ok (true, u)) else Ok (false, r).
 Proof.
-  intros Hn. unfold qexp. rewrite vnorm3_R. sm_simpl.
-  replace (Reqb (nv3 x y z) 0) with false; [reflexivity|].
-  unfold Reqb. destruct (Req_EM_T (nv3 x y z) 0); [lra|reflexivity].
+  intros Hn. unfold qexp. rewrite vnorm3_R. sm_simpl. rewrite Reqb_false_of by lra. reflexivity.
 Qed.
 
-Lemma qexp_R_nan s x y z : nv3 x y z = 0 -> qexp Rops K (s,x,y,z) = NanRes.
+Lemma qexp_R_real s :
+  qexp Rops K (s,0,0,0) =
+    if Rltb (Rabs s) (t_exp K) then qbind (qunit Rops K (exp s, 0, 0, 0)) (fun u => Ok (true, u))
+    else Ok (false, (exp s, 0, 0, 0)).
 Proof.
-  intros Hn. unfold qexp. rewrite vnorm3_R. sm_simpl. rewrite Hn.
-  replace (Reqb 0 0) with true by (symmetry; apply Reqb_true; reflexivity). reflexivity.
+  unfold qexp. rewrite vnorm3_R, nv3_zero. sm_simpl. rewrite Reqb_refl0, cos_0.
+  replace (exp s * 1) with (exp s) by ring. replace (exp s * 0) with 0 by ring. reflexivity.
 Qed.
 
 Lemma qunit_R s x y z : t_unit K <= nq4 s x y z ->
@@ -169,43 +204,37 @@ Proof.
 Qed.
 
 (* ---------------- exp(log q) ---------------- *)
-(* for every q whose vector part is above the unitvec threshold, exp recovers q exactly from log q
-   BEFORE its final branch; the branch then returns q, or q/|q| when | ln|q| | < t_exp *)
-Theorem qexp_log_R s x y z : 0 <= t_unitvec K -> t_unitvec K < nv3 x y z ->
+(* for EVERY q with non-zero vector part, exp recovers q exactly from log q BEFORE its final branch;
+   the branch then returns q, or q/|q| when | ln|q| | < t_exp *)
+Theorem qexp_log_R s x y z : 0 < nv3 x y z ->
   qexp_log Rops K (s,x,y,z) =
     if Rltb (Rabs (ln (nq4 s x y z))) (t_exp K) then qunit Rops K (s,x,y,z) else Ok (s,x,y,z).
 Proof.
-  intros Hk Hn. assert (Hn0 : 0 < nv3 x y z) by lra.
-  destruct (nq4_gt_s s x y z Hn0) as [HN Hc].
-  destruct (acos_pos_lt _ Hc) as [Hth _].
-  unfold qexp_log. rewrite qlog_R_ok by assumption. cbv zeta. cbn [qbind]. unfold qexp_vec.
-  set (n := nv3 x y z) in *. set (N := nq4 s x y z) in *. set (th := acos (s / N)) in *.
-  assert (Hnv : nv3 (th * (x / n)) (th * (y / n)) (th * (z / n)) = th)
+  intros Hn0. destruct (nq4_gt_s s x y z Hn0) as [HN _].
+  destruct (angle_facts s x y z Hn0) as ([Hth _] & Hcos & Hsin).
+  unfold qexp_log. rewrite qlog_R by assumption. cbv zeta. cbn [qbind]. unfold qexp_vec.
+  set (n := nv3 x y z) in *. set (N := nq4 s x y z) in *. set (th := atan2 n s) in *.
+  assert (Hnv : nv3 (th * x / n) (th * y / n) (th * z / n) = th)
     by (apply nv3_scaled; [lra | exact Hn0]).
   rewrite qexp_R by (rewrite Hnv; exact Hth). cbv zeta. rewrite Hnv.
-  rewrite (exp_ln N HN).
-  assert (Hcos : N * cos th = s).
-  { unfold th. rewrite cos_acos by lra. field. lra. }
-  assert (Hsin : sin th = n / N) by (apply sin_acos_ratio; exact Hn0).
-  rewrite Hcos, Hsin.
-  replace (N * (th * (x / n)) / th * (n / N)) with x by (field; repeat split; lra).
-  replace (N * (th * (y / n)) / th * (n / N)) with y by (field; repeat split; lra).
-  replace (N * (th * (z / n)) / th * (n / N)) with z by (field; repeat split; lra).
+  rewrite (exp_ln N HN), Hcos, Hsin.
+  replace (N * (s / N)) with s by (field; lra).
+  replace (N * (th * x / n) / th * (n / N)) with x by (field; repeat split; lra).
+  replace (N * (th * y / n) / th * (n / N)) with y by (field; repeat split; lra).
+  replace (N * (th * z / n) / th * (n / N)) with z by (field; repeat split; lra).
   destruct (Rltb (Rabs (ln N)) (t_exp K)); [|reflexivity].
   destruct (qunit Rops K (s,x,y,z)); reflexivity.
 Qed.
 
 (* ---------------- log(exp q) ---------------- *)
 (* exp q = e^s (cos n, v/n sin n) for n = |v| in (0, pi): its logarithm *)
-Lemma qlog_of_exp_form es x y z : 0 <= t_unitvec K -> 0 < es ->
-  0 < nv3 x y z < PI -> t_unitvec K < es * sin (nv3 x y z) ->
-  qlog Rops K (es * cos (nv3 x y z), es * x / nv3 x y z * sin (nv3 x y z),
+Lemma qlog_of_exp_form es x y z : 0 < es -> 0 < nv3 x y z < PI ->
+  qlog Rops (es * cos (nv3 x y z), es * x / nv3 x y z * sin (nv3 x y z),
                es * y / nv3 x y z * sin (nv3 x y z), es * z / nv3 x y z * sin (nv3 x y z)) = Ok (ln es, x, y, z).
 Proof.
-  intros Hk He [Hn0 Hnpi] Hthr. set (n := nv3 x y z) in *.
+  intros He [Hn0 Hnpi]. set (n := nv3 x y z) in *.
   assert (Hsin : 0 < sin n) by (apply sin_gt_0; assumption).
   pose proof (sin2_cos2 n) as Hsc. unfold Rsqr in Hsc.
-  (* rewrite the vector part as (k x / n, ...) with k = es sin n *)
   set (k := es * sin n) in *.
   replace (es * x / n * sin n) with (k * x / n) by (unfold k; field; lra).
   replace (es * y / n * sin n) with (k * y / n) by (unfold k; field; lra).
@@ -217,51 +246,30 @@ Proof.
     replace (es * sin n * y / n) with (es * y / n * sin n) by (field; lra).
     replace (es * sin n * z / n) with (es * z / n * sin n) by (field; lra).
     apply nq4_exp_form; [exact He | exact Hn0 | lra]. }
-  rewrite qlog_R_ok by (try exact Hk; rewrite Hv; exact Hthr). cbv zeta. rewrite Hv, HNe.
-  replace (es * cos n / es) with (cos n) by (field; lra).
-  rewrite acos_cos by lra.
-  replace (n * (k * x / n / k)) with x by (field; lra).
-  replace (n * (k * y / n / k)) with y by (field; lra).
-  replace (n * (k * z / n / k)) with z by (field; lra).
+  rewrite qlog_R by (rewrite Hv; exact Hk0). cbv zeta. rewrite Hv, HNe.
+  unfold k at 1 4 7. rewrite atan2_scaled by (try exact He; split; assumption). fold k.
+  replace (n * (k * x / n) / k) with x by (field; lra).
+  replace (n * (k * y / n) / k) with y by (field; lra).
+  replace (n * (k * z / n) / k) with z by (field; lra).
   reflexivity.
 Qed.
 
-Theorem qlog_exp_R s x y z : 0 <= t_unitvec K -> 0 < nv3 x y z < PI ->
-  t_exp K <= Rabs s -> t_unitvec K < exp s * sin (nv3 x y z) ->
+Theorem qlog_exp_R s x y z : 0 < nv3 x y z < PI -> t_exp K <= Rabs s ->
   qlog_exp Rops K (s,x,y,z) = Ok (s,x,y,z).
 Proof.
-  intros Hk Hn Hs Hthr. unfold qlog_exp, qexp_vec. rewrite qexp_R by lra. cbv zeta.
+  intros Hn Hs. unfold qlog_exp, qexp_vec. rewrite qexp_R by lra. cbv zeta.
   replace (Rltb (Rabs s) (t_exp K)) with false by (symmetry; apply Rltb_false; lra).
   cbn [qbind snd].
   rewrite (qlog_of_exp_form (exp s)) by (try assumption; apply exp_pos).
   rewrite ln_exp. reflexivity.
 Qed.
 
-(* ... and the same composition raises TypeError (float * None) when e^s sin|v| is at or below the unitvec threshold *)
-Theorem qlog_exp_none_R s x y z : 0 < nv3 x y z < PI ->
-  t_exp K <= Rabs s -> exp s * sin (nv3 x y z) <= t_unitvec K ->
-  qlog_exp Rops K (s,x,y,z) = TypeErr.
-Proof.
-  intros [Hn0 Hnpi] Hs Hthr. unfold qlog_exp, qexp_vec. rewrite qexp_R by lra. cbv zeta.
-  replace (Rltb (Rabs s) (t_exp K)) with false by (symmetry; apply Rltb_false; lra).
-  cbn [qbind snd].
-  pose proof (exp_pos s) as He.
-  assert (Hsin : 0 < sin (nv3 x y z)) by (apply sin_gt_0; assumption).
-  pose proof (sin2_cos2 (nv3 x y z)) as Hsc. unfold Rsqr in Hsc.
-  apply qlog_R_none.
-  - replace (exp s * x / nv3 x y z * sin (nv3 x y z)) with (exp s * sin (nv3 x y z) * x / nv3 x y z) by (field; lra).
-    replace (exp s * y / nv3 x y z * sin (nv3 x y z)) with (exp s * sin (nv3 x y z) * y / nv3 x y z) by (field; lra).
-    replace (exp s * z / nv3 x y z * sin (nv3 x y z)) with (exp s * sin (nv3 x y z) * z / nv3 x y z) by (field; lra).
-    rewrite nv3_exp_form; [exact Hthr | nra | exact Hn0].
-  - rewrite nq4_exp_form; [exact He | exact He | exact Hn0 | lra].
-Qed.
-
 (* inside the band |s| < t_exp the result of exp is normalised: the scalar part of the logarithm is lost *)
-Theorem qlog_exp_band_R s x y z : 0 <= t_unitvec K -> 0 < nv3 x y z < PI ->
-  Rabs s < t_exp K -> t_exp K <= 1/2 -> t_unit K <= 1/2 -> t_unitvec K < sin (nv3 x y z) ->
+Theorem qlog_exp_band_R s x y z : 0 < nv3 x y z < PI ->
+  Rabs s < t_exp K -> t_exp K <= 1/2 -> t_unit K <= 1/2 ->
   qlog_exp Rops K (s,x,y,z) = Ok (0,x,y,z).
 Proof.
-  intros Hk Hn Hs Hte Htu Hthr. unfold qlog_exp, qexp_vec. rewrite qexp_R by lra. cbv zeta.
+  intros Hn Hs Hte Htu. unfold qlog_exp, qexp_vec. rewrite qexp_R by lra. cbv zeta.
   replace (Rltb (Rabs s) (t_exp K)) with true by (symmetry; apply Rltb_true; lra).
   set (n := nv3 x y z) in *.
   pose proof (sin2_cos2 n) as Hsc. unfold Rsqr in Hsc.
